@@ -52,6 +52,7 @@ struct Spec
     Operand r, a, b;
     int aux;
     int alias;           // alias forms expressible by rule (decls.py can_share): bit0 c:a, bit1 c:b, bit2 a:b, bit3 c:a:b
+    int s32;             // bit q set: the scalar stride parameter of slot q is a 32-bit integer (values must fit)
     int covered;         // 0 = uncovered (call == 0), why holds the reason
     const char *why;
     void (*call)(CallArgs &);
